@@ -277,8 +277,8 @@ func (c *Capture) Bytes() []byte {
 	defer c.mu.Unlock()
 	return bytes.Clone(c.buf.Bytes())
 }
-func (c *Capture) Reset()     { c.mu.Lock(); c.buf.Reset(); c.writes = 0; c.mu.Unlock() }
-func (c *Capture) Len() int   { c.mu.Lock(); defer c.mu.Unlock(); return c.buf.Len() }
+func (c *Capture) Reset()      { c.mu.Lock(); c.buf.Reset(); c.writes = 0; c.mu.Unlock() }
+func (c *Capture) Len() int    { c.mu.Lock(); defer c.mu.Unlock(); return c.buf.Len() }
 func (c *Capture) Writes() int { c.mu.Lock(); defer c.mu.Unlock(); return c.writes }
 
 // ResetRecsKeepLive clears recorded items but keeps the live recorders registered.
